@@ -326,6 +326,23 @@ def random_history(rng):
     return h
 
 
+def wide_history(rng, nkeys):
+    """the same contract with hundreds of keys in one call (a client that pipelines or slices large batches)"""
+    keys = ["w%03d" % i for i in range(nkeys)]
+    vals = [b"1", b"x", b"42", b"", b"val\r\nue"]
+    h = []
+    nr = ("nr",) if rng.random() < 0.5 else ()
+    h.append(("set_many", tuple((k, vals[i % len(vals)]) for i, k in enumerate(keys))) + nr)
+    h.append(("get_many", tuple(keys)))
+    h.append(("gets_many", tuple(rng.sample(keys, nkeys - rng.randrange(0, 3)))))
+    some = rng.sample(keys, rng.choice((nkeys // 2, nkeys - 1, 129 if nkeys > 129 else 1)))
+    h.append(("delete_many", tuple(some)) + (("nr",) if rng.random() < 0.5 else ()))
+    h.append(("get_many", tuple(keys)))
+    h.append(("set_many", tuple((k, b"second") for k in some[: rng.randrange(1, len(some) + 1)])) + (("nr",) if rng.random() < 0.5 else ()))
+    h.append(("gets_many", tuple(keys)))
+    return h
+
+
 def set_many_failures(res):
     """set_many's failed-key list = exactly the keys the server did not store, in the caller's order"""
     keys = ["k1", "k2", "k3", "k4"]
@@ -385,6 +402,13 @@ def shard(tier, seed, idx, n):
             cfg["key_prefix"] = rng.choice([b"p:", b"ns-"])
         run_history(res, stacks[i % len(stacks)], cfg, random_history(rng), "random")
         res.count("random_histories")
+    for i, nkeys in enumerate((127, 128, 129, 130, 255, 256, 257, 300, 513, 1025)):
+        work += 1
+        if work % n != idx:
+            continue
+        for stack in (("client", "pooled", "hash") if tier == "quick" else ("client", "pooled", "hash", "hashpooled")):
+            run_history(res, stack, {"default_noreply": bool(i % 2)}, wide_history(random.Random(seed * 977 + work), nkeys), "wide")
+            res.count("wide_histories")
     res.extra["exhaustive"] = True
     res.extra["exhaustive_part"] = "all histories of length <=%d over %d op instances (Client)" % (maxlen, len(A))
     return res
